@@ -10,6 +10,7 @@ pub uninterp spec fn dao_of(b: Byte32) -> Dao;          // the four 8-byte lanes
 pub uninterp spec fn h_number(h: &HeaderView) -> u64;
 pub uninterp spec fn h_dao(h: &HeaderView) -> Dao;
 pub uninterp spec fn h_parent(h: &HeaderView) -> Byte32;
+pub uninterp spec fn h_hash(h: &HeaderView) -> Byte32;
 pub uninterp spec fn out_capacity(o: &CellOutput) -> u64;
 pub uninterp spec fn out_occupied(o: &CellOutput, data: u64) -> Option<u64>;
 pub uninterp spec fn sec_reward(c: &Consensus) -> u64;
@@ -18,6 +19,7 @@ pub fn extract_dao_data(dao: Byte32) -> (r: (u64, Capacity, Capacity, Capacity))
     ensures r.0 == dao_of(dao).ar, r.1.0 == dao_of(dao).c, r.2.0 == dao_of(dao).s, r.3.0 == dao_of(dao).u { unimplemented!() }
 impl HeaderView {
     #[verifier::external_body] pub fn number(&self) -> (r: u64) ensures r == h_number(self) { unimplemented!() }
+    #[verifier::external_body] pub fn hash(&self) -> (r: Byte32) ensures r == h_hash(self) { unimplemented!() }
     #[verifier::external_body] pub fn dao(&self) -> (r: Byte32) ensures dao_of(r) == h_dao(self) { unimplemented!() }
     #[verifier::external_body] pub fn data(&self) -> (r: PackedHeader) ensures hdr_parent(&r) == h_parent(self) { unimplemented!() }
 }
